@@ -150,6 +150,7 @@ fn assigned(ss: &[Stmt], out: &mut Vec<String>) {
             Expr::Path(p) if p.path.segments.len() == 1 => Some(p.path.segments[0].ident.to_string()),
             Expr::Unary(u) if matches!(u.op, UnOp::Deref(_)) => target(&u.expr),
             Expr::Paren(p) => target(&p.expr),
+            Expr::Field(f) => target(&f.base),
             _ => None,
         }
     }
@@ -418,10 +419,29 @@ impl<'a> FnCx<'a> {
                 let ret = self.ret.clone();
                 match &r.expr {
                     Some(x) => self.expr(x, Some(&ret)),
+                    None if self.mut_self => self.vars_value(&["self".to_string()]),
                     None => Ok((L::raw("()"), Ty::Unit)),
                 }
             }
             _ if is_panic_call(e) => Ok((L::Panic, Ty::Unknown)),
+            // field assignment on a TwoFloat variable: `x.hi = e`, `x.lo op= e`
+            Expr::Assign(a) if matches!(&*a.left, Expr::Field(_)) => {
+                let (name, field) = self.field_target(&a.left)?;
+                let (v, _) = self.expr(&a.right, Some(&Ty::F64))?;
+                let (body, bt) = self.stmts(rest, tail)?;
+                let upd = L::raw(format!("{{ {} with {} := {} }}", lean_ident(&name), field, v.inl0()));
+                Ok((L::Let(lean_ident(&name), None, Box::new(upd), Box::new(body)), bt))
+            }
+            Expr::Binary(b) if compound_op(&b.op).is_some() && matches!(&*b.left, Expr::Field(_)) => {
+                let (op, _, _) = compound_op(&b.op).unwrap();
+                let (name, field) = self.field_target(&b.left)?;
+                let (r, rt) = self.expr(&b.right, Some(&Ty::F64))?;
+                let cur = L::Field(Box::new(L::var(&lean_ident(&name))), field.clone());
+                let v = self.prim_bin(op, cur, &Ty::F64, r, &rt)?.0;
+                let (body, bt) = self.stmts(rest, tail)?;
+                let upd = L::raw(format!("{{ {} with {} := {} }}", lean_ident(&name), field, v.inl0()));
+                Ok((L::Let(lean_ident(&name), None, Box::new(upd), Box::new(body)), bt))
+            }
             Expr::Assign(a) => {
                 let name = self.assign_target(&a.left)?;
                 let cur = self.lookup(&name).ok_or(format!("assignment to unbound {}", name))?;
@@ -627,6 +647,23 @@ impl<'a> FnCx<'a> {
             src_order: 0,
             instance: None,
         });
+    }
+
+    fn field_target(&self, e: &Expr) -> R<(String, String)> {
+        match e {
+            Expr::Field(f) => {
+                let name = self.assign_target(&f.base)?;
+                let t = self.lookup(&name).ok_or(format!("assignment to unbound {}", name))?;
+                if t.erase() != Ty::TF {
+                    return Err("field assignment on non-TwoFloat".into());
+                }
+                match &f.member {
+                    Member::Named(n) => Ok((name, n.to_string())),
+                    _ => Err("tuple field assignment".into()),
+                }
+            }
+            _ => Err("not a field".into()),
+        }
     }
 
     fn assign_target(&self, e: &Expr) -> R<String> {
